@@ -320,6 +320,14 @@ def handle : R String := do
     | .ok s0 =>
       let outs := dbgLoop dp fuel cmds { cur := s0 } [s!"ok 0 {wDbg dp s0}"]
       pure (String.intercalate " | " outs)
+  | "strwrite" => do
+    let s ← str
+    pure (wStr (StrLit.write s))
+  | "strread" => do
+    let s ← str
+    match StrLit.read s with
+    | some r => pure s!"ok {wStr r.value} {r.warnings}"
+    | none => pure "err"
   | "wf" => do
     let v ← vm
     pure (wBool (wfb v))
